@@ -203,6 +203,12 @@ type absOut struct {
 	pushes [][]byte
 	err    bool
 	upd    bool
+	// aliasHot: the output's only push is the serialisation of the single outpoint the
+	// transaction spends, the signature script pushes nothing, and no other output of the
+	// transaction aliases: whenever such a transaction matches an exact filter that does not
+	// contain its other material, the spent outpoint is in the filter, so this output hits
+	// and its own outpoint is inserted (if the flag allows) by that same call
+	aliasHot bool
 }
 type absIn struct {
 	prevHash chainhash.Hash
@@ -219,11 +225,12 @@ type absTx struct {
 func (t *gTx) abs() absTx {
 	a := absTx{id: t.id}
 	for _, o := range t.outs {
-		a.outs = append(a.outs, absOut{o.pushes, o.parseErr, o.upd})
+		a.outs = append(a.outs, absOut{o.pushes, o.parseErr, o.upd, false})
 	}
 	for i, in := range t.ins {
 		a.ins = append(a.ins, absIn{t.msg.TxIn[i].PreviousOutPoint.Hash, t.msg.TxIn[i].PreviousOutPoint.Index, in.pushes, in.parseErr})
 	}
+	markAlias(&a)
 	return a
 }
 
@@ -233,13 +240,28 @@ func absFromMsg(m *wire.MsgTx) absTx {
 	for _, o := range m.TxOut {
 		p, err := txscript.PushedData(o.PkScript)
 		c := txscript.GetScriptClass(o.PkScript)
-		a.outs = append(a.outs, absOut{norm(p), err != nil, c == txscript.PubKeyTy || c == txscript.MultiSigTy})
+		a.outs = append(a.outs, absOut{norm(p), err != nil, c == txscript.PubKeyTy || c == txscript.MultiSigTy, false})
 	}
 	for _, in := range m.TxIn {
 		p, err := txscript.PushedData(in.SignatureScript)
 		a.ins = append(a.ins, absIn{in.PreviousOutPoint.Hash, in.PreviousOutPoint.Index, norm(p), err != nil})
 	}
+	markAlias(&a)
 	return a
+}
+
+// markAlias derives aliasHot from the shape of the transaction (see absOut)
+func markAlias(a *absTx) {
+	if len(a.ins) != 1 || a.ins[0].err || len(a.ins[0].pushes) != 0 {
+		return
+	}
+	spent := opBytes(&a.ins[0].prevHash, a.ins[0].prevIdx)
+	for k := range a.outs {
+		o := &a.outs[k]
+		if !o.err && len(o.pushes) == 1 && bytes.Equal(o.pushes[0], spent) {
+			o.aliasHot = true
+		}
+	}
 }
 
 func norm(p [][]byte) [][]byte {
@@ -391,6 +413,13 @@ func genDAG(r *vh.RNG, w *wallet, family string, n int, own int) []*gTx {
 			add([]prevRef{{b, 1}}, 1+r.Intn(2), "")
 			add([]prevRef{{b + 1, 0}, {b + 2, 0}}, 1+r.Intn(2), "")
 		}
+	case "multiout": // a parent with several outputs paying to the wallet, one neutral child per output (and a double spend)
+		k := 2 + r.Intn(3)
+		built = append(built, buildTx(r, w, built, []prevRef{ext()}, k, 10, vh.Pick(r, []string{"", "p2pkh", "p2pk", "multisig"})))
+		for j := 0; j < k; j++ {
+			built = append(built, buildTx(r, w, built, []prevRef{{0, uint32(j)}}, 1, 0, ""))
+		}
+		built = append(built, buildTx(r, w, built, []prevRef{{0, uint32(k - 1)}}, 1, 0, ""))
 	case "fan": // several children spend (double-spend) outputs of one parent
 		add([]prevRef{ext(), ext()}, 1+r.Intn(3), "")
 		for i := 1; i < n; i++ {
@@ -578,7 +607,7 @@ func matchesSet(s itemSet, t absTx) bool {
 // relClosure: least set of block positions containing the transactions matching the
 // watch set and closed under "spends an outpoint that a member's matching output caused
 // to be inserted" (computed as a fixpoint over positions; independent of block order)
-func relClosure(watch itemSet, flags uint8, txs []absTx) map[int]bool {
+func relClosure(watch itemSet, flags uint8, txs []absTx, useAlias bool) map[int]bool {
 	rel := map[int]bool{}
 	for i, t := range txs {
 		if matchesSet(watch, t) {
@@ -597,7 +626,11 @@ func relClosure(watch itemSet, flags uint8, txs []absTx) map[int]bool {
 						continue
 					}
 					o := p.outs[in.prevIdx]
-					if !o.err && watch.hasAny(o.pushes) && flagAllows(flags, o.upd) {
+					hot := !o.err && watch.hasAny(o.pushes)
+					if useAlias && o.aliasHot && !matchesSet(watch, p) {
+						hot = true // general form of completeness (C10_scan_complete_hot), exact filters only
+					}
+					if hot && flagAllows(flags, o.upd) {
 						rel[i] = true
 						changed = true
 					}
@@ -922,6 +955,7 @@ type scenario struct {
 	txs    []*wire.MsgTx
 	abs    []absTx // by construction (generation) or through txscript (replay)
 	alias  bool    // a data push equals an outpoint serialisation: the exact-equality monitor does not apply
+	aliasChain bool // the constructed alias-chain family: the closure uses the aliasHot rule on exact filters
 }
 
 func checkScan(sc scenario, corr bool, costOnly bool) {
@@ -951,7 +985,7 @@ func checkScan(sc scenario, corr bool, costOnly bool) {
 	}
 	rel := map[int]bool{}
 	if sc.p.Loaded {
-		rel = relClosure(watch, sc.p.Flags, sc.abs)
+		rel = relClosure(watch, sc.p.Flags, sc.abs, sc.p.exact() && sc.aliasChain)
 	}
 	rep.Count("scan:"+sc.family+":"+sc.order, key, len(rel) > 0 && len(rel) < n)
 
@@ -1036,7 +1070,11 @@ func checkScan(sc scenario, corr bool, costOnly bool) {
 				continue
 			}
 			for k, o := range t.outs {
-				if !o.err && watch.hasAny(o.pushes) && flagAllows(sc.p.Flags, o.upd) {
+				hot := !o.err && watch.hasAny(o.pushes)
+				if sc.aliasChain && o.aliasHot && !matchesSet(watch, t) {
+					hot = true
+				}
+				if hot && flagAllows(sc.p.Flags, o.upd) {
 					ref.AddOutPoint(wire.NewOutPoint(&t.id, uint32(k)))
 				}
 			}
@@ -1236,6 +1274,55 @@ func costFamily(r *vh.RNG, shape string, L int) scenario {
 	return scenario{family: "cost-" + shape, order: "reverse", p: fParams{Size: 8192, K: 12, Tweak: 7, Flags: 1, Loaded: true}, watch: watch, txs: msgs(txs), abs: absList(txs)}
 }
 
+// ---------------------------------------------------------------- the alias-chain family
+// G pays the watched address; every later link spends output 0 of its predecessor with a
+// signature script that pushes nothing and carries, as its output 0, a data push equal to
+// the serialisation of the outpoint it spends (token-style outputs referencing their
+// funding outpoint); it matches in no other way.  Such a link becomes relevant, and gets
+// its own outpoint inserted, only when its predecessor's outpoint is in the filter, which
+// in most orders happens on the re-check.  The last link carries no alias.
+func aliasChain(r *vh.RNG, w *wallet, n int) []*gTx {
+	var built []*gTx
+	built = append(built, buildTx(r, w, built, []prevRef{{-1, 0}}, 1+r.Intn(2), 10, "p2pkh"))
+	for i := 1; i < n; i++ {
+		prev := built[i-1]
+		m := wire.NewMsgTx(1)
+		op := wire.OutPoint{Hash: prev.id, Index: 0}
+		sig := []byte{0x51}
+		m.AddTxIn(wire.NewTxIn(&op, sig))
+		t := &gTx{msg: m, ins: []gScript{{sig, [][]byte{}, false, false, "op1"}}}
+		if i < n-1 || r.Bool() {
+			d := opBytes(&prev.id, 0)
+			s := cat([]byte{0x6a}, push(d))
+			m.AddTxOut(wire.NewTxOut(0, s, wire.TokenData{}))
+			t.outs = append(t.outs, gScript{s, [][]byte{d}, false, false, "alias"})
+		}
+		if r.Bool() || len(t.outs) == 0 {
+			o := genOutScript(r, w, "p2pkh", 0)
+			m.AddTxOut(wire.NewTxOut(1000, o.script, wire.TokenData{}))
+			t.outs = append(t.outs, o)
+		}
+		m.LockTime = r.U32()
+		t.id = m.TxHash()
+		built = append(built, t)
+	}
+	return built
+}
+
+func permutations(n int) [][]int {
+	if n == 0 {
+		return [][]int{{}}
+	}
+	var out [][]int
+	for _, p := range permutations(n - 1) {
+		for i := 0; i <= len(p); i++ {
+			q := append(append(append([]int{}, p[:i]...), n-1), p[i:]...)
+			out = append(out, q)
+		}
+	}
+	return out
+}
+
 // ---------------------------------------------------------------- replay
 func runReplay(path string) {
 	raw, err := os.ReadFile(path)
@@ -1270,7 +1357,8 @@ func runReplay(path string) {
 		for _, m := range txs {
 			sc.abs = append(sc.abs, absFromMsg(m))
 		}
-		sc.alias = strings.HasPrefix(in.Family, "alias")
+		sc.aliasChain = in.Family == "refchain"
+		sc.alias = strings.HasPrefix(in.Family, "alias-") || (sc.aliasChain && !in.Filter.exact())
 		checkScan(sc, false, false)
 	}
 }
@@ -1332,8 +1420,19 @@ func main() {
 	}
 
 	// --- blocks
+	// fixed edge cases: the empty block, a block of one transaction without inputs or outputs
+	{
+		r = rng.Fork("scan-edge")
+		w := newWallet(r)
+		for _, fl := range []uint8{0, 1, 2} {
+			p := fParams{Size: 8, K: 3, Tweak: 5, Flags: fl, Loaded: true}
+			checkScan(scenario{family: "empty-block", order: "topological", p: p, watch: [][]byte{w.h160[0]}}, !cfg.Search, false)
+			t := buildTx(r, w, nil, nil, 0, 0, "")
+			checkScan(scenario{family: "bare-tx", order: "topological", p: p, watch: [][]byte{t.id[:]}, txs: msgs([]*gTx{t}), abs: absList([]*gTx{t})}, !cfg.Search, false)
+		}
+	}
 	r = rng.Fork("scan")
-	families := []string{"chain", "chain2", "diamond", "fan", "random", "random", "random"}
+	families := []string{"chain", "chain2", "diamond", "fan", "multiout", "random", "random", "random"}
 	orders := []string{"topological", "reverse", "ctor", "random"}
 	nb := cfg.Scale(260, 2500)
 	if cfg.Search {
@@ -1379,6 +1478,40 @@ func main() {
 			sc := scenario{family: fam, order: ord, p: p, watch: watch, txs: msgs(ptx), abs: absList(ptx), alias: alias}
 			corr := !cfg.Search && p.Size <= 256 && (i%scanCorr == 0 || (alias && oi < 2)) && (oi == i%4 || oi == (i+1)%4 && i%2 == 0)
 			checkScan(sc, corr, false)
+		}
+	}
+
+	// --- alias chains: every permutation of 3- and 4-link chains
+	r = rng.Fork("aliaschain")
+	nac := cfg.Scale(6, 40)
+	if cfg.Search {
+		nac = 120
+	}
+	for i := 0; i < nac; i++ {
+		w := newWallet(r)
+		n := 3 + i%2
+		txs := aliasChain(r, w, n)
+		selfCheckOracle(txs)
+		watch := [][]byte{txs[0].outs[0].pushes[0]}
+		if i%5 == 4 {
+			watch = append(watch, w.pubs[0]) // unrelated extra item
+		}
+		for _, fl := range []uint8{1, 1, 2, 0}[:cfg.Scale(2, 4)] {
+			var p fParams
+			if fl == 1 && i%3 != 2 {
+				p = fParams{Size: 8192, K: 12, Tweak: r.U32(), Flags: fl, Loaded: true}
+			} else {
+				p = genParams(r, fl)
+			}
+			for pi, perm := range permutations(n) {
+				ptx := make([]*gTx, n)
+				for a, b := range perm {
+					ptx[a] = txs[b]
+				}
+				sc := scenario{family: "refchain", order: fmt.Sprint(perm), p: p, watch: watch, txs: msgs(ptx), abs: absList(ptx), alias: !p.exact(), aliasChain: true}
+				corr := !cfg.Search && p.Size <= 256 && (pi+i)%cfg.Scale(3, 5) == 0
+				checkScan(sc, corr, false)
+			}
 		}
 	}
 
